@@ -12,7 +12,8 @@ Lemma nth_upd : forall {A} (l : list A) i k x d,
   nth k (upd i x l) d = if Nat.eqb k i then (if Nat.ltb i (length l) then x else d) else nth k l d.
 Proof.
   intros A l; induction l as [|h t IH]; intros i k x d.
-  - cbn. destruct (Nat.eqb k i); destruct k; reflexivity.
+  - cbn [upd length]. replace (i <? 0) with false by (symmetry; apply Nat.ltb_ge; lia).
+    destruct k; destruct (Nat.eqb _ i); reflexivity.
   - destruct i as [|i]; destruct k as [|k]; cbn [upd nth length]; try reflexivity.
     rewrite IH. cbn [Nat.eqb]. destruct (Nat.eqb k i); [|reflexivity].
     change (S i <? S (length t)) with (i <? length t). reflexivity.
@@ -146,7 +147,7 @@ Lemma dot_vsubmul_l : forall f p r v, length p = length r ->
   dot K (vsubmul K f p r) v = dot K r v - f * dot K p v.
 Proof.
   intros f p r; revert p; induction r as [|a r IH]; intros [|b p] v H; cbn in H; try lia.
-  - cbn. rewrite !dot_nil_l. ring.
+  - unfold vsubmul. cbn [combine map]. rewrite !dot_nil_l. ring.
   - destruct v as [|c v].
     + rewrite !dot_nil_r. ring.
     + unfold vsubmul. cbn [combine map fst snd]. fold (vsubmul K f p r).
